@@ -136,7 +136,10 @@ class Terms:
             return ('bin', n['op'], T(n['c'][0]), T(n['c'][1]))
         if k == 'UnaryOperator':
             if n['op'] == '*':
-                return ('deref', T(n['c'][0]))
+                inner = T(n['c'][0])
+                if inner[0] == 'var' and inner[1] in getattr(f, 'iter_as_elem', ()):
+                    return inner
+                return ('deref', inner)
             if n['op'] == '!':
                 return _not(T(n['c'][0]))
             return ('un', n['op'], bool(n.get('postfix')), T(n['c'][0]))
@@ -151,7 +154,10 @@ class Terms:
             if op == '[]' and len(a) == 2:
                 return ('idx', T(a[0]), T(a[1]))
             if op == '*' and len(a) == 1:
-                return ('deref', T(a[0]))
+                inner = T(a[0])
+                if inner[0] == 'var' and inner[1] in getattr(f, 'iter_as_elem', ()):
+                    return inner
+                return ('deref', inner)
             if op in ('++', '--'):
                 return ('un', op, len(a) == 2, T(a[0]))
             if op == '!' and len(a) == 1:
